@@ -1,9 +1,69 @@
 import GnpyDriver.JsonUtil
+import GnpyDriver.C08
+import GnpyDriver.C09
 import GnpyModel
 /- driver handlers for property C17 (ops are named "c17.<name>") -/
 open Lean
 namespace Gnpy.Drv.C17
+open Gnpy.Chain Gnpy.Drv.C08
 
-def handlers : List (String × Handler) := []
+def getAmpOut (j : Json) : R (AmpOut Float) := do
+  return { gain := ← fF j "gain", deltaP := ← fOpt getF j "delta_p", dpInt := ← fF j "dp_int", outVoa := ← fF j "out_voa",
+           inVoa := ← fF j "in_voa", targetPch := ← fOpt getF j "target_pch", retDp := ← fF j "ret_dp",
+           retVoa := ← fF j "ret_voa", reduction := ← fF j "reduction", dp0 := ← fF j "dp0", gain0 := ← fF j "gain0",
+           powerTarget := ← fF j "power_target" }
+
+/-- export + reload of a designed line: the input of the next design round -/
+def exportH (j : Json) : R Json := do
+  let line ← fList getElem j "line"
+  let outs ← fList getAmpOut j "outs"
+  let vs ← fList getStr j "varieties"
+  return jList jElem (exportLine line outs vs)
+
+def getRaman (j : Json) : R RamanParams := do
+  return { flag := ← fBool j "flag", method := ← fStr j "method", order := ← fInt j "order",
+           resultRes := ← fNat j "result_spatial_resolution", solverRes := ← fNat j "solver_spatial_resolution" }
+
+def getNLI (j : Json) : R NLIParams := do
+  return { method := ← fStr j "method", dispTol := ← fNat j "dispersion_tolerance",
+           phaseTol := ← fNat j "phase_shift_tolerance", channels := ← fOpt (getList getInt) j "computed_channels",
+           nChannels := ← fOpt getInt j "computed_number_of_channels" }
+
+def jRaman (r : RamanParams) : Json :=
+  jObj [("flag", jBool r.flag), ("method", jStr r.method), ("order", jInt r.order),
+        ("result_spatial_resolution", jNat r.resultRes), ("solver_spatial_resolution", jNat r.solverRes)]
+
+def jNLI (n : NLIParams) : Json :=
+  jObj [("method", jStr n.method), ("dispersion_tolerance", jNat n.dispTol), ("phase_shift_tolerance", jNat n.phaseTol),
+        ("computed_channels", jOpt (jList jInt) n.channels), ("computed_number_of_channels", jOpt jInt n.nChannels)]
+
+def jState (s : SimState) : Json := jObj [("nli_params", jNLI s.nli), ("raman_params", jRaman s.raman)]
+
+/-- ASCII lower-casing (the generators only use ASCII method names) -/
+def lower (s : String) : String := s.map Char.toLower
+
+/-- `SimParams.set_params(prior)` followed by `n` Raman gain estimations: the state seen by the solver and the state
+left behind -/
+def simparams (j : Json) : R Json := do
+  let dflt : SimState := { nli := ← getNLI (← fld j "default_nli"), raman := ← getRaman (← fld j "default_raman") }
+  let n ← fOpt getNLI j "prior_nli"
+  let r ← fOpt getRaman j "prior_raman"
+  let ramanOn ← getRaman (← fld j "raman_on")
+  let s0 := setParams lower dflt n r
+  let k ← fNat j "estimations"
+  let during := (estimateRamanGainParams lower dflt ramanOn s0).1
+  return jObj [("before", jState s0), ("during", jState during), ("after", jState (estimateMany lower dflt ramanOn k s0))]
+
+/-- does `network_from_json` accept the document (all connection ends are elements)? -/
+def reload (j : Json) : R Json := do
+  let uids ← fList getStr j "uids"
+  let cxs ← fList (fun c => do
+    match ← getArr c with
+    | [a, b] => return ((← getStr a), (← getStr b))
+    | _ => throw "connection pair expected") j "connections"
+  return if reloadAccepts uids cxs then jObj [("ok", jBool true)] else jObj [("error", jStr "NetworkTopologyError")]
+
+def handlers : List (String × Handler) :=
+  [("c17.export", exportH), ("c17.simparams", simparams), ("c17.reload", reload)]
 
 end Gnpy.Drv.C17
